@@ -185,7 +185,8 @@ class Play:
         raise HarnessError("start_value is not a state value")
 
     def new_interp(self, providers, is_async, state0=None):
-        it = Interp(self.spec, rtc=self.rtc, allow=self.allow, is_async=is_async, providers=providers, start=self.start_index())
+        it = Interp(self.spec, rtc=self.rtc, allow=self.allow, is_async=is_async, providers=providers, start=self.start_index(),
+                    instance_cbs=getattr(self, "_instance_cbs", True))
         if state0 is not None:
             it.state = state0
             it.queue.clear()
@@ -200,6 +201,8 @@ class Play:
         Hh.depth = bool(self.case.get("depth"))
         all_provs = {c["prov"] for c in self.spec["cbs"]} | {g["prov"] for g in self.spec.get("guards", [])}
         ctor_provs = {p for p in all_provs if not p.startswith("late")}  # late* providers are attached by add_listener only
+        # callbacks that are attributes of one provider object only: the first instance has them, a sibling may not
+        self._instance_cbs = True if name == "main" else bool(self.case.get("sib_instance_cbs", False))
         is_async = is_async_spec(self.spec, ctor_provs)
         it = self.new_interp(ctor_provs, is_async, state0)
         ctx = Ctx(name, None, Hh, it, None)
@@ -219,7 +222,7 @@ class Play:
             mk["model"] = model
             mk["model_given"] = True
         try:
-            sm, _ = r.make(rtc=self.rtc, allow=self.allow, Hh=Hh, **mk, **self.ctor_kwargs())
+            sm, _ = r.make(rtc=self.rtc, allow=self.allow, Hh=Hh, instance_cbs=self._instance_cbs, **mk, **self.ctor_kwargs())
         except (Boom, TransitionNotAllowed) as e:
             # a failure during initial activation escapes from the constructor: there is no machine to go on with.
             Hh.log[:] = [t for t in Hh.log if t[0] != "G"]
@@ -232,6 +235,11 @@ class Play:
                     raise Fail("wrong-exception", f"construction: {d}")
                 raise Fail("skip", "initial activation fails (as expected)")
             raise Fail("unexpected-exception", f"construction raised {e!r}")
+        except HarnessError:
+            raise
+        except Exception as e:
+            # the definition is valid by construction: nothing else may escape from the constructor
+            raise Fail("construction-failed", f"construction of {name} raised {type(e).__name__}: {e}")
         ctx.sm = sm
         ctx.model = mk.get("model") if mk.get("model_given") else Hh.objs.get("model")
         # names that resolve to properties/attributes are read once at registration to see whether they are
@@ -251,7 +259,12 @@ class Play:
 
     def attach(self, ctx, p):
         if p in ctx.H.objs:
-            ctx.sm.add_listener(ctx.H.objs[p])
+            try:
+                ctx.sm.add_listener(ctx.H.objs[p])
+            except HarnessError:
+                raise
+            except Exception as e:
+                raise Fail("add-listener-failed", f"add_listener({p}) raised {type(e).__name__}: {e}")
         ctx.interp.providers.add(p)
         ctx.interp.is_async = is_async_spec(self.spec, ctx.interp.providers)
         if ctx is self.main:
@@ -269,7 +282,8 @@ class Play:
         ctx.interp.val = dict(ctx.H.val)
 
     def set_fault(self, ctx, fault):
-        f = tuple(fault) if fault else None
+        f = tuple(fault[:2]) if fault else None
+        ctx.H.fault_kind = fault[2] if fault and len(fault) > 2 else "boom"
         ctx.H.fault = f
         ctx.interp.fault = f
         ctx.H.no_sender_yields = f is not None
@@ -278,7 +292,9 @@ class Play:
     def _obs(self, fn):
         try:
             return ("ok", fn())
-        except RecursionError:
+        except RecursionError as e:
+            if self.rtc:
+                return ("exc", e)  # run-to-completion must not grow the stack with the number of queued events
             raise Fail("skip", "recursion limit")
         except HarnessError:
             raise
@@ -292,7 +308,9 @@ class Play:
                 if isawaitable(r):
                     r = await r
                 return ("ok", r)
-            except RecursionError:
+            except RecursionError as e:
+                if self.rtc:
+                    return ("exc", e)
                 raise Fail("skip", "recursion limit")
             except HarnessError:
                 raise
@@ -395,6 +413,33 @@ class Play:
                 raise Fail("stored-state-touched", f"step {self.i}: reconstruction replaced the stored enum member")
         self.labels.add("reconstruct:" + ("resume" if state0 is not None else "fresh"))
         self.check_state(ctx, f"step {self.i} reconstruction over the same model")
+
+    async def op_deficient_instance(self, step):
+        """Another instance of the class over a bare model and without listeners: it must be rejected with InvalidDefinition
+        iff some explicitly named callback or guard name is then provided by nobody (decided per instance, whatever other
+        instances exist)."""
+        spec = self.spec
+        named = {c["name"] for c in spec["cbs"] if c["attach"] == "name"} | {g for t in spec["trans"] for g in t.get("cond", []) + t.get("unless", [])}
+        on_machine = {c["name"] for c in spec["cbs"] if c["prov"] == "machine"} | {g["name"] for g in spec.get("guards", []) if g["prov"] == "machine"}
+        missing = sorted(named - on_machine)
+        H2 = self.rendered.new_H()
+        H2.objs = {}
+        try:
+            with warnings.catch_warnings():
+                warnings.simplefilter("ignore")
+                self.rendered.cls(H2, model=type("Bare", (), {})(), allow_event_without_transition=True)
+            got = None
+        except InvalidDefinition as e:
+            got = e
+        except (Boom, TransitionNotAllowed):
+            return  # initial activation failed on its own scripted events: construction got past the definition check
+        if missing and got is None:
+            raise Fail("deficient-instance-accepted", f"step {self.i}: an instance whose providers lack {missing} was not rejected at instantiation")
+        if not missing and got is not None:
+            raise Fail("complete-instance-rejected", f"step {self.i}: an instance with every name on the machine itself was rejected: {got}")
+        self.labels.add("deficient-instance:" + ("rejected" if missing else "complete"))
+        for ctx in self.ctxs.values():
+            ctx.H.log[:] = [t for t in ctx.H.log if t[0] != "G"]
 
     async def body(self):
         await self.construct()
